@@ -242,12 +242,14 @@ pub struct Item {
     pub unpriv: bool,
     /// C08: the caller is root of a fresh user namespace owning its mount and pid namespaces
     pub userns: bool,
+    /// the operation runs in a thread with a private descriptor table; the leader holds look-alikes of this in-root directory
+    pub thread_decoy: Option<String>,
     pub nofile: Option<u64>,
     /// the caller has no descriptor 0 (a daemon that closed stdin): the library's first open returns 0
     pub no_stdin: bool,
 }
 
-fn item(scen: Scenario, plan: Plan, max_exec: u64) -> Item { Item { scen, plan, warm: true, mount_api: 0, max_exec, bundle: vec![], others: vec![], proc_opts: None, unpriv: false, userns: false, nofile: None, no_stdin: false } }
+fn item(scen: Scenario, plan: Plan, max_exec: u64) -> Item { Item { scen, plan, warm: true, mount_api: 0, max_exec, bundle: vec![], others: vec![], proc_opts: None, unpriv: false, userns: false, thread_decoy: None, nofile: None, no_stdin: false } }
 
 /// Argument spellings for the input sweep of mutating operations (C03/C05/C11).
 pub fn sweep_paths() -> Vec<&'static str> {
@@ -264,6 +266,7 @@ pub fn sweep_scenarios(thorough: bool, capi: bool) -> Vec<Scenario> {
         ops.push(r("remove_dir").path(p));
         ops.push(r("mkdir_all").path(p).mode(0o755));
         ops.push(r("create_file").path(p).flags(O_WRONLY).mode(0o644));
+        ops.push(r("create_file").path(p).flags(O_PATH).mode(0o644));
         ops.push(r("create").path(p).itype("file").mode(0o644));
         ops.push(r("create").path(p).itype("dir").mode(0o755));
         ops.push(r("create").path(p).itype("symlink").path2("../../../../secret"));
@@ -363,12 +366,25 @@ pub fn items(prop: &str, tier: &str) -> Vec<Item> {
     let bundle = |name: &str, scens: Vec<Scenario>, size: usize, warm: bool, mount_api: u8, out: &mut Vec<Item>| {
         for (i, ch) in scens.chunks(size).enumerate() {
             let s0 = Scenario { name: format!("{}#{}", name, i), backend: ch[0].backend.clone(), op: ch[0].op.clone(), path: String::new() };
-            out.push(Item { scen: s0, plan: Plan::Trace, warm, mount_api, max_exec: 1, bundle: ch.to_vec(), others: vec![], proc_opts: None, unpriv: false, userns: false, nofile: None, no_stdin: false });
+            out.push(Item { scen: s0, plan: Plan::Trace, warm, mount_api, max_exec: 1, bundle: ch.to_vec(), others: vec![], proc_opts: None, unpriv: false, userns: false, thread_decoy: None, nofile: None, no_stdin: false });
         }
     };
     match prop {
         "C02" => {
             for s in lookup_scenarios(th) { v.push(item(s, Plan::Attack { bound: if th { 2 } else { 1 }, full: !th }, if th { 60_000 } else { 3_000 })); }
+            // callers that are threads with a private descriptor table (unshare(CLONE_FILES)) while the thread-group leader holds
+            // descriptors of the lexically expected directory on the same numbers: whatever the resolver verifies through
+            // procfs must be about the calling thread's descriptors
+            for (p, decoy) in [("a/b/..", "a"), ("a/b/c/..", "a/b"), ("a/b/c/../..", "a"), ("a/b/lnk/..", "a")] {
+                for b in if th { vec!["E", "K"] } else { vec!["E"] } {
+                    for op in [Op::new("resolve").root(ROOT_IN).path(p), Op::new("open_subpath").root(ROOT_IN).path(p).flags(O_RDONLY | O_DIRECTORY)] {
+                        if !th && op.name == "open_subpath" && p != "a/b/.." { continue; }
+                        let mut it = item(Scenario { name: format!("private-fdtable[{}]:{}/{}", decoy, b, op.brief()), backend: b.into(), op, path: p.into() }, Plan::Attack { bound: if th { 2 } else { 1 }, full: !th }, if th { 60_000 } else { 3_000 });
+                        it.thread_decoy = Some(decoy.into());
+                        v.push(it);
+                    }
+                }
+            }
             // three (one walk: four) mutations per execution with the directory-swapping core, on every walk of the emulated resolver
             if th {
                 for s in lookup_scenarios(true).into_iter().filter(|s| s.backend == "E" && (s.op.name == "resolve" || (s.op.name == "open_subpath" && s.path.contains("..")))) {
@@ -495,7 +511,7 @@ pub fn items(prop: &str, tier: &str) -> Vec<Item> {
                     }
                 }
                 let s0 = scs[0].clone();
-                v.push(Item { scen: s0, plan: Plan::Trace, warm: true, mount_api: 0, max_exec: 1, bundle: scs, others: vec![], proc_opts: opts.map(|s| s.to_string()), unpriv: *unpriv, userns: *who == 2, nofile: Some(256), no_stdin: false });
+                v.push(Item { scen: s0, plan: Plan::Trace, warm: true, mount_api: 0, max_exec: 1, bundle: scs, others: vec![], proc_opts: opts.map(|s| s.to_string()), unpriv: *unpriv, userns: *who == 2, thread_decoy: None, nofile: Some(256), no_stdin: false });
             }
             // environment answers of the handle-construction protocol: every single (thorough: every pair of) deviating answer(s)
             let names: Vec<String> = ["fsopen", "fsconfig", "fsmount", "open_tree", "openat", "faccessat2"].iter().map(|s| s.to_string()).collect();
@@ -586,6 +602,7 @@ fn spec_for(it: &Item, scen: &Scenario) -> OneShot {
     os.warmup.extend(handle_warmup(&scen.op));
     if it.no_stdin { os.warmup.push(Op::new("close_stdin")); }
     if it.userns { os.setup.userns = true; }
+    if let Some(d) = &it.thread_decoy { os.setup.thread_decoy = Some(format!("{}|{}/{}", ROOT_IN, ROOT_IN, d)); }
     if it.unpriv { os.setup.uid = 1000; os.setup.gid = 1000; os.setup.drop_caps = true; os.setup.keep_dumpable = true; }
     os.setup.rlimit_nofile = it.nofile;
     if it.mount_api >= 1 { os.setup.deny.push("fsopen".to_string()); }
@@ -846,6 +863,12 @@ fn judge(prop: &str, it: &Item, scen: &Scenario, w: &World, eo: &ExecOut, counts
         }
         if let Some(x) = containment_monitor(w, eo, prop != "C02") { v.push(x); }
         if prop != "C02" { if let Some(x) = outside_effects(w, eo)? { v.push(x); } }
+        // kernel backend: races inside one openat2 call cannot be enumerated at syscall granularity; the containment argument
+        // there is the kernel's, and it only applies if every delegated walk is scoped (RESOLVE_IN_ROOT|RESOLVE_NO_MAGICLINKS)
+        if matches!(prop, "C02" | "C03") {
+            let mut scratch = BTreeMap::new();
+            for (k, d) in discipline_monitor(&scen.op, eo, &mut scratch) { if k.starts_with("R2-resolve") { v.push(("unscoped-delegation".into(), d)); break; } }
+        }
         if prop == "C10" {
             // an injected ENOENT / EEXIST / ENOTEMPTY is a claim about the state of the directory ("it is already gone / there");
             // the library is entitled to believe the kernel, so "success for work not done" is only judged for errnos that
